@@ -38,8 +38,15 @@ pub struct LiveEndpoint {
 impl LiveEndpoint {
     /// the real `Core::listen` (TCP + QUIC) on a loopback port, on its own runtime
     pub fn start(build: impl Fn(SocketAddr) -> Core) -> Option<LiveEndpoint> {
-        let addr: SocketAddr = ([127, 0, 0, 1], free_port()).into();
-        let core = Arc::new(build(addr));
+        Self::start_on(false, build)
+    }
+
+    /// `dual_stack`: the endpoint listens on `[::]` (IPv4 peers reach it as `::ffff:a.b.c.d`); clients still use 127.0.0.1
+    pub fn start_on(dual_stack: bool, build: impl Fn(SocketAddr) -> Core) -> Option<LiveEndpoint> {
+        let port = free_port();
+        let addr: SocketAddr = ([127, 0, 0, 1], port).into();
+        let listen: SocketAddr = if dual_stack { (std::net::Ipv6Addr::UNSPECIFIED, port).into() } else { addr };
+        let core = Arc::new(build(listen));
         let rt = tokio::runtime::Builder::new_multi_thread().worker_threads(2).enable_all().build().unwrap();
         let c2 = core.clone();
         rt.spawn(async move {
